@@ -24,8 +24,8 @@ fn usage() -> ! {
 /// A `log` back end that renders every record (at Trace) into a discarded buffer.  With it
 /// installed the library's log statements really format their arguments - as they do for a user
 /// who runs with a logger at debug or trace level - so a `{:?}` that can panic or spin inside a
-/// log line is executed under the monitors.  Installed for odd seeds; even seeds run without any
-/// logger, as most consumers do.
+/// log line is executed under the monitors.  Installed for three seeds out of four; every fourth seed
+/// (seed % 4 == 0) runs without any logger, as most consumers do.
 struct SinkLogger;
 static LOG_RECORDS: std::sync::atomic::AtomicU64 = std::sync::atomic::AtomicU64::new(0);
 impl log::Log for SinkLogger {
@@ -104,7 +104,7 @@ fn main() {
     let with_logger = match std::env::var("VERIF_LOGGER").ok().as_deref() {
         Some("0") => false,
         Some(_) => true,
-        None => seed % 2 == 1,
+        None => seed % 4 != 0,
     };
     if with_logger && log::set_logger(&SINK).is_ok() {
         log::set_max_level(log::LevelFilter::Trace);
